@@ -32,7 +32,7 @@ REQUIRED = ["calls.finite.is_finite", "calls.PolyPerms.is_polynomial", "calls.In
             "calls.InsertionEncodablePerms.is_insertion_encodable_rightmost", "calls.InsertionEncodablePerms.is_insertion_encodable_maximum",
             "calls.Av.is_finite", "calls.Av.is_polynomial", "calls.Av.is_insertion_encodable", "containers.checked", "oneshot.checked",
             "symmetry.checked", "enumeration.finite_confirmed", "enumeration.nonpoly_fib_checked", "enumeration.poly_confirmed",
-            "av_history.sequences", "long.member_bases", "nine_of_ten.bases", "verylong.member_bases", "memo.poly_entries_checked", "memo.insenc_entries_checked", "cli.checked", "verdict.polynomial_true", "verdict.insenc_true", "verdict.finite_true"]
+            "av_history.sequences", "long.member_bases", "nine_of_ten.bases", "verylong.member_bases", "reentrant.calls", "memo.poly_entries_checked", "memo.insenc_entries_checked", "cli.checked", "verdict.polynomial_true", "verdict.insenc_true", "verdict.finite_true"]
 MIN_NONTRIVIAL = 300
 CTX = None
 MON = None
@@ -210,6 +210,56 @@ def chk_basis(ctx, basis, full=True):
             report("basis", [basis], f"`permtools insenc {text}` printed {out2!r}, theorems say rightmost={want[2]} topmost={want[3]}")
 
 
+def chk_reentrant(ctx, basis):
+    """a basis given lazily, whose evaluation itself asks the library (the same verdict functions, for single elements):
+    the verdict must be the one of the same permutations given as a list.  A call that never returns because it waits for
+    a lock its own thread holds is recognised by inspecting the blocked thread (not by the clock alone)."""
+    import sys
+    import threading
+    import traceback
+
+    perms = [Perm(b) for b in basis]
+    fns = {"is_insertion_encodable_rightmost": PU.is_insertion_encodable_rightmost, "is_insertion_encodable_maximum": PU.is_insertion_encodable_maximum,
+           "is_polynomial": PU.is_polynomial, "is_finite": PU.is_finite, "is_insertion_encodable": PU.is_insertion_encodable}
+    for name, fn in fns.items():
+        want = fn(list(perms))
+
+        def lazy():
+            for q in perms:
+                fn([q])  # nested request while the outer one is iterating over its argument
+                yield q
+
+        box = {}
+
+        def call():
+            try:
+                box["res"] = fn(lazy())
+            except BaseException as exc:  # noqa: B902
+                box["exc"] = exc
+
+        th = threading.Thread(target=call, daemon=True)
+        th.start()
+        th.join(60)
+        ctx.ev()
+        ctx.count("reentrant.calls")
+        if th.is_alive():
+            frame = sys._current_frames().get(th.ident)
+            stack = traceback.extract_stack(frame) if frame else []
+            inside = any("/permuta/" in f.filename for f in stack)
+            waiting = bool(stack) and (stack[-1].name in ("acquire", "__enter__", "wait") or "acquire" in (stack[-1].line or "") or "with " in (stack[-1].line or ""))
+            if inside and waiting:
+                report("reentrant", [basis], f"{name}(lazily evaluated basis) never returns: its thread is blocked at {stack[-1].name}:{stack[-1].lineno} "
+                       f"({(stack[-1].line or '').strip()}) waiting for a lock taken by the same call")
+            else:
+                ctx.inconc(f"{name}(lazy basis) still running after 60 s at {[f.name for f in stack[-3:]]}")
+            return False  # the blocked call may hold library locks: nothing else is asked in this process
+        if "exc" in box:
+            report("reentrant", [basis], f"{name}(lazily evaluated basis) raised {box['exc']!r}; the list form gives {want}")
+        elif box.get("res") is not want:
+            report("reentrant", [basis], f"{name}(lazily evaluated basis) = {box.get('res')!r}, the same permutations as a list give {want}")
+    return True
+
+
 def chk_enumeration(ctx, basis):
     ts = [tuple(b) for b in basis]
     if not ts or any(len(t) == 0 for t in ts):
@@ -278,7 +328,7 @@ def chk_av_history(ctx, bases):
     ctx.count("av_history.sequences")
 
 
-CHECKS = {"basis": chk_basis, "enum": chk_enumeration, "history": chk_history, "av_history": chk_av_history}
+CHECKS = {"reentrant": chk_reentrant, "basis": chk_basis, "enum": chk_enumeration, "history": chk_history, "av_history": chk_av_history}
 
 
 
@@ -424,6 +474,10 @@ def run(ctx, spec):
             chk_basis(ctx, basis, full=rng.random() < 0.3)
             ctx.count("nine_of_ten.bases")
         chk_verylong(ctx, rng.randrange(10 ** 9))
+        for _ in range(3):
+            basis = [rng.sample(range(k), k) for k in (rng.choice([2, 3, 3, 4]) for _ in range(rng.randint(1, 4)))]
+            if not chk_reentrant(ctx, basis):
+                return
         for _ in range(spec["enum"]):
             basis = [rng.sample(range(k), k) for k in (rng.choice([2, 3, 3, 4, 4]) for _ in range(rng.randint(1, 4)))]
             chk_enumeration(ctx, basis)
